@@ -14,7 +14,8 @@ RULE = ("one case = a world (scenario with 0..4 lanelets [stop line optional], t
         "[trajectory prediction of KS/PM/Custom/ExtendedPM/Initial/MB/ST states | set-based prediction | none] / phantom / "
         "environment obstacles with exact or uncertain initial states [position region rectangle/circle/polygon, orientation "
         "interval], dynamic obstacles with history states, traffic lights with a housing shape, areas, 0..2 planning problems with "
-        "1..3 goal states; loose states sometimes with an inadmissible position / orientation type) + loose objects of every class that has a public "
+        "1..3 goal states plus 0..3 further problems whose goal region equals an earlier one's by value [distinct objects] or is the "
+        "same GoalRegion object; loose states sometimes with an inadmissible position / orientation type) + loose objects of every class that has a public "
         "translate_rotate, moved by one (t, a): a from {0, +-1e-9..+-0.049, +-0.05, +-nextafter(0.05), +-0.051, k*pi/2, +-2pi, "
         "+-nextafter(2pi), ints, uniform, log-uniform small, rarely out of range}, t dyadic / zero / float / int-typed / large; "
         "the motion is applied as a whole (Scenario / PlanningProblemSet), per network+obstacle, or part by part; "
@@ -51,6 +52,10 @@ ASSUMPTIONS = [
     "occupancy is not a rigid placement of the body), translations that are not an ndarray of length 2, np.float32 angles",
     "a failing call with an angle outside [-2pi, 2pi] may precede the motion (dims.fail_first): whatever it leaves is the baseline, "
     "atomicity of the failed call is not demanded",
+    "a GoalRegion object held by several problems: PlanningProblemSet.translate_rotate has to move it once (repaired by b4f94f9; "
+    "model CR.Rigid.ProblemSet, C05_problem_set_objects); a caller moving problem by problem (modes network / parts) moves such an "
+    "object once himself. Not generated: ONE state_list list object handed to two GoalRegion objects (GoalRegion keeps the "
+    "caller's list and works on it in place)",
     "part by part, lanelets are moved behind the network's back, so find_lanelet_by_position is not compared in that mode (index "
     "maintenance is C11); with dims.warm the occupancies are read from the live objects whose caches were filled before the motion",
 ]
@@ -62,7 +67,7 @@ REQUIRED_BUCKETS = ["dim/ints", "dim/utm", "dim/alias", "dim/mutate", "dim/warm"
                     "angle/generic", "angle/out-of-range", "t/zero", "t/dyadic", "t/float", "mode/whole", "mode/network",
                     "mode/parts", "probe", "obst/static", "obst/dynamic-traj", "obst/dynamic-set", "obst/phantom", "obst/env",
                     "state/PMState", "state/uncertain-pos", "state/uncertain-ori", "lanelet/stop-line", "sign", "light",
-                    "problem", "loose/shape", "loose/state", "loose/trajectory", "loose/occupancy", "loose/setpred",
+                    "problem", "problem/equal-goal-regions", "problem/shared-goal-region", "loose/shape", "loose/state", "loose/trajectory", "loose/occupancy", "loose/setpred",
                     "loose/trajpred", "loose/stopline", "loose/lanelet", "loose/sign", "loose/light", "loose/obstacle",
                     "loose/goal", "loose/problem", "loose/points", "wrap/crossed"]
 
@@ -332,6 +337,47 @@ def gen_problem(r, pid, a):
     return {"id": pid, "init": init, "goal": [gen_goal_state(r, a) for _ in range(r.randint(1, 3))]}
 
 
+def gen_problem_twins(r, problems, a, p=0.5, same_init=False):
+    """Further planning problems whose goal region EQUALS that of an earlier problem `goal_of` (cooperative problems: several
+    vehicles, one goal): `goal_share` 'equal' = a second GoalRegion object built from the same values (GoalRegion hashes and
+    compares by VALUE: equal, but distinct objects), 'same' = the very same GoalRegion object held by both problems.
+    Every problem of the set has to be moved exactly once, whatever is equal to or shared with whatever."""
+    out = []
+    if not problems or r.random() >= p:
+        return out
+    for _ in range(r.choice([1, 1, 2, 3])):
+        have = problems + out
+        j = r.randrange(len(have))
+        tw = gen_problem(r, 500 + len(have), a)
+        tw.update(goal=copy.deepcopy(have[j]["goal"]), goal_of=j, goal_share=r.choice(["equal", "equal", "same"]))
+        if r.random() < 0.3 or same_init:
+            tw["init"] = copy.deepcopy(have[j]["init"])          # the same start as well (equal initial states, distinct objects)
+        out.append(tw)
+    return out
+
+
+def drop_problem(problems, i):
+    """`problems` without entry i, the `goal_of` references kept meaningful (used by shrink)."""
+    gone, out, heir = problems[i], [], None     # heir: the first problem that referred to a dropped original becomes the original
+    for k, q in enumerate(problems):
+        if k == i:
+            continue
+        q = dict(q)
+        if q.get("goal_of") == i:
+            same = q.get("goal_share") == "same"
+            if "goal_of" in gone:
+                q.update(goal_of=gone["goal_of"], goal_share="same" if same and gone.get("goal_share") == "same" else "equal")
+            elif heir is None:
+                heir = (k, same)
+                q.pop("goal_of"), q.pop("goal_share", None)
+            else:
+                q.update(goal_of=heir[0], goal_share="same" if same and heir[1] else "equal")
+        if q.get("goal_of", -1) > i:
+            q["goal_of"] -= 1
+        out.append(q)
+    return out
+
+
 LOOSE_KINDS = ["area", "areaborder", "matrix", "network",
                "points", "shape", "state", "trajectory", "occupancy", "setpred", "trajpred", "stopline", "lanelet", "sign", "light",
                "obstacle", "goal", "problem"]
@@ -457,6 +503,7 @@ def _gen_case_body(r, a, t, valid, dims):
         for pr in problems:
             if len(pr["goal"]) >= 2 and "pos" in pr["goal"][0]:
                 pr["goal"][1]["pos"] = copy.deepcopy(pr["goal"][0]["pos"])
+    problems += gen_problem_twins(r, problems, a)        # (after the alias edits: a twin's goal values stay EQUAL to its original's)
     return {"a": a, "t": t, "mode": mode, "dims": dims,
             "scenario": {"lanelets": lanelets, "signs": signs, "lights": lights, "obstacles": obstacles, "areas": areas},
             "problems": problems, "loose": loose}
@@ -495,7 +542,8 @@ def gen_probe_case(ctx):
     return {"a": a, "t": {"v": t, "int": False}, "mode": r.choice(["whole", "network", "parts"]), "probe": True,
             "scenario": {"lanelets": [lanelet(1)], "signs": [{"id": 100 + i, "pos": list(P[i]), "lanelet": 1} for i in range(3)],
                          "lights": [{"id": 200 + i, "pos": list(P[i]), "lanelet": 1} for i in range(3)], "obstacles": obstacles},
-            "problems": [{"id": 500, "init": init(), "goal": goal}], "loose": r.sample(loose, 4)}
+            "problems": (lambda ps: ps + gen_problem_twins(r, ps, a, p=0.4, same_init=True))([{"id": 500, "init": init(), "goal": goal}]),
+            "loose": r.sample(loose, 4)}
 
 
 # ------------------------------------------------------------------------------------------------ build real objects
@@ -706,14 +754,22 @@ def build_goal(goal):
     return GoalRegion([build_state(s) for s in goal])
 
 
-def build_problem(p):
+def build_problem(p, goal=None):
+    """`goal`: the GoalRegion OBJECT of another problem that this one holds as well (goal_share 'same')."""
     from commonroad.planning.planning_problem import PlanningProblem
     if _B["mutate"]:
         pp = PlanningProblem(p["id"], build_state(dict(p["init"], pos=DECOY)), build_goal(p["goal"][:1]))
         pp.initial_state = build_state(p["init"])
-        pp.goal = build_goal(p["goal"])
+        pp.goal = goal if goal is not None else build_goal(p["goal"])
         return pp
-    return PlanningProblem(p["id"], build_state(p["init"]), build_goal(p["goal"]))
+    return PlanningProblem(p["id"], build_state(p["init"]), goal if goal is not None else build_goal(p["goal"]))
+
+
+def build_problems(specs):
+    out = []
+    for p in specs:
+        out.append(build_problem(p, out[p["goal_of"]].goal if p.get("goal_share") == "same" else None))
+    return out
 
 
 def build_world(case):
@@ -737,7 +793,7 @@ def build_world(case):
             sc.add_objects(build_obstacle(o))
     for ar in s.get("areas", []):
         sc.lanelet_network.add_area(build_area(ar["id"], ar["borders"]), set())
-    return sc, PlanningProblemSet([build_problem(p) for p in case["problems"]])
+    return sc, PlanningProblemSet(build_problems(case["problems"]))
 
 
 def build_area(aid, borders):
@@ -1034,6 +1090,21 @@ def snap_problems(pps):
     return [snap_problem(pps.planning_problem_dict[k]) for k in sorted(pps.planning_problem_dict)]
 
 
+def snap_problem_set(pps):
+    """The set as the OBJECTS it is made of (CR.Rigid.ProblemSet): one `goals` entry per GoalRegion object (by identity, in the
+    order of first occurrence), every problem with its initial state and the index of the goal-region object it holds."""
+    goals, objs, probs = [], [], []
+    for k in sorted(pps.planning_problem_dict):
+        pp = pps.planning_problem_dict[k]
+        idx = next((i for i, g in enumerate(objs) if g is pp.goal), None)
+        if idx is None:
+            idx = len(objs)
+            objs.append(pp.goal)
+            goals.append([snap_state(s) for s in pp.goal.state_list])
+        probs.append({"init": snap_state(pp.initial_state), "goal": idx})
+    return {"goals": goals, "problems": probs}
+
+
 def snap_loose(kind, obj):
     if kind in ("points", "matrix"):
         return _ps(obj)
@@ -1318,7 +1389,15 @@ def apply_world(sc, pps, t, a, mode):
             _, err = run(f"{type(o).__name__}.translate_rotate", o, t, a)
             if err:
                 return err
+        seen = []          # a caller who moves the problems one by one moves a goal-region object that two of them hold once
         for pp in pps.planning_problem_dict.values():
+            if any(pp.goal is g for g in seen):
+                st, err = run(f"{type(pp.initial_state).__name__}.translate_rotate", pp.initial_state, t, a)
+                if err:
+                    return err
+                pp.initial_state = st
+                continue
+            seen.append(pp.goal)
             _, err = run("PlanningProblem.translate_rotate", pp, t, a)
             if err:
                 return err
@@ -1370,11 +1449,15 @@ def apply_world(sc, pps, t, a, mode):
             _, err = run(f"{type(o).__name__}.translate_rotate", o, t, a)
             if err:
                 return err
+    seen = []
     for pp in pps.planning_problem_dict.values():
         st, err = run(f"{type(pp.initial_state).__name__}.translate_rotate", pp.initial_state, t, a)
         if err:
             return err
         pp.initial_state = st
+        if any(pp.goal is g for g in seen):
+            continue
+        seen.append(pp.goal)
         _, err = run("GoalRegion.translate_rotate", pp.goal, t, a)
         if err:
             return err
@@ -1652,6 +1735,28 @@ class Oracle:
                     return False
         return True
 
+    def goal_twins(self, site, specs, before, after):
+        """Problems whose goal region equals (by value) or IS that of another problem of the set: each of them shows the rigid
+        image of the goal it showed before.  On top of the generic point check this has failure keys of its own, so that 'one of
+        several equal goal regions left in place' and 'a goal region that two problems hold not moved exactly once' are named."""
+        linked = {}
+        for k, p in enumerate(specs):
+            if "goal_of" in p:
+                for i in (k, p["goal_of"]):
+                    linked[i] = linked.get(i, False) or p.get("goal_share") == "same"
+        for k in sorted(linked):
+            b, x = strip(before[k]["goal"]), strip(after[k]["goal"])
+            if self.is_moved(b, x):
+                continue
+            obs = "shared-goal-region-not-moved-exactly-once" if linked[k] else \
+                "equal-goal-region-not-moved" if x == b else "equal-goal-region-not-the-rigid-image"
+            links = "; ".join(f"{q['id']} holds " + ("the same goal-region object as " if q.get("goal_share") == "same" else
+                                                       "a goal region equal to that of ") + str(specs[q["goal_of"]]["id"])
+                              for q in specs if "goal_of" in q)
+            self.fail(site, obs, f"problem {specs[k]['id']} ({links}): goal {json.dumps(b)[:160]} -> {json.dumps(x)[:160]} "
+                                 f"(t={self.case['t']['v']}, a={self.a!r})")
+            return
+
     def areas_and_history(self, before, after):
         """Area borders and obstacle histories (left in place by trees before 00d3698 / 6df6dd6) are world-frame fields like any
         other; on top of the generic point check they get a failure key of their own, so that a regression is named."""
@@ -1816,6 +1921,9 @@ def tag_case(ctx, case):
         ctx.tag("history")
     if case["problems"]:
         ctx.tag("problem")
+    for sh, tag in (("equal", "problem/equal-goal-regions"), ("same", "problem/shared-goal-region")):
+        if any(p.get("goal_share") == sh for p in case["problems"]):
+            ctx.tag(tag)
 
     def tag_state(st):
         ctx.tag("state/" + st["cls"])
@@ -1965,6 +2073,8 @@ def _one_step(ctx, full_case, case, sc, pps, loose_objs, a_call, t, last, step):
 
     # ---- before
     reflect_world([sc, pps, loose_objs])
+    pset = snap_problem_set(pps)          # which problems hold ONE goal-region object is part of what the model is given
+    pset = {"goals": to_rat(pset["goals"]), "problems": [{"init": to_rat(q["init"]), "goal": q["goal"]} for q in pset["problems"]]}
     before = {"scenario": snap_scenario(sc), "problems": snap_problems(pps),
               "loose": [snap_loose(lo["kind"], o) for lo, o in zip(case["loose"], loose_objs)]}
     inadm = [lo["kind"] == "state" and bool(lo["v"].get("pos_other") or lo["v"].get("ori_other")) for lo in case["loose"]]
@@ -1982,7 +2092,7 @@ def _one_step(ctx, full_case, case, sc, pps, loose_objs, a_call, t, last, step):
         lerrs.append(err)
 
     # ---- the model on the same stored values
-    objs = [{"kind": "scenario", "v": to_rat(before["scenario"])}, {"kind": "problems", "v": to_rat(before["problems"])}]
+    objs = [{"kind": "scenario", "v": to_rat(before["scenario"])}, {"kind": "problemset", "v": pset}]
     objs += [{"kind": MODEL_KIND.get(lo["kind"], lo["kind"]), "v": to_rat(b)} for lo, b in zip(case["loose"], before["loose"])]
     margs = {"c": rat(math.cos(a)), "s": rat(math.sin(a)), "a": rat(a), "t": [rat(tv[0]), rat(tv[1])], "tau": rat(tau), "objs": objs}
     model = ctx.driver.ask("C05", "move", margs)
@@ -2001,7 +2111,7 @@ def _one_step(ctx, full_case, case, sc, pps, loose_objs, a_call, t, last, step):
             impl_w = [{"ok": after["scenario"]}, {"err": cls}]
         else:
             impl_w = [{"err": cls}, None]
-    names = ["Scenario.translate_rotate vs CR.Rigid.Scenario.move", "PlanningProblemSet.translate_rotate vs CR.Rigid.moveProblems"]
+    names = ["Scenario.translate_rotate vs CR.Rigid.Scenario.move", "PlanningProblemSet.translate_rotate vs CR.Rigid.ProblemSet.move (as objects; = moveProblems of the values)"]
     for i in range(2):
         if impl_w[i] is None:
             continue
@@ -2037,6 +2147,8 @@ def _one_step(ctx, full_case, case, sc, pps, loose_objs, a_call, t, last, step):
         orc.bodies(site, before["scenario"], after["scenario"])
         orc.areas_and_history(before["scenario"], after["scenario"])
     if after["problems"] is not None:
+        orc.goal_twins("PlanningProblemSet.translate_rotate" if case["mode"] == "whole" else f"problems[{case['mode']}]",
+                       case["problems"], before["problems"], after["problems"])
         orc.stored("PlanningProblemSet.translate_rotate" if case["mode"] == "whole" else f"problems[{case['mode']}]",
                    before["problems"], after["problems"])
     for lo, b, x, bad in zip(case["loose"], before["loose"], after["loose"], inadm):
@@ -2126,7 +2238,14 @@ def shrink(case, key):
 
     sc = case["scenario"]
     try_drop(lambda: case["loose"], lambda v: case.__setitem__("loose", v))
-    try_drop(lambda: case["problems"], lambda v: case.__setitem__("problems", v))
+    i = 0
+    while i < len(case["problems"]) and budget[0] > 0:         # (a dropped problem may be the original of a twin: references re-pointed)
+        items = case["problems"]
+        case["problems"] = drop_problem(items, i)
+        budget[0] -= 1
+        if not _still_fails(case, key):
+            case["problems"] = items
+            i += 1
     try_drop(lambda: sc["obstacles"], lambda v: sc.__setitem__("obstacles", v))
     try_drop(lambda: sc.get("areas", []), lambda v: sc.__setitem__("areas", v))
     try_drop(lambda: sc["signs"], lambda v: sc.__setitem__("signs", v))
@@ -2143,6 +2262,7 @@ def shrink(case, key):
         if not _still_fails(case, key):
             sc["lanelets"] = items
             i += 1
-    for p in case["problems"]:
-        try_drop(lambda: p["goal"], lambda v: p.__setitem__("goal", v)) if len(p["goal"]) > 1 else None
+    linked = {k for k, p in enumerate(case["problems"]) if "goal_of" in p} | {p["goal_of"] for p in case["problems"] if "goal_of" in p}
+    for k, p in enumerate(case["problems"]):
+        try_drop(lambda: p["goal"], lambda v: p.__setitem__("goal", v)) if len(p["goal"]) > 1 and k not in linked else None
     return case
